@@ -120,6 +120,7 @@ structure Layout (F : FTy) (p eb : Nat) : Prop where
   hp64 : p + eb ≤ 64
   heb : 2 ≤ eb
   heb16 : eb ≤ 16
+  heb15 : eb ≤ 15
   hL : 63 ≤ 2 ^ (eb - 1) - 1 + (p - 1) - 1
   maxMant : F.C.maxMantissaFastPath = ((2 ^ p : Nat) : Int)
   hpb : p + 1 ≤ 2 ^ (eb - 1) - 1
